@@ -4,8 +4,9 @@
 (* the harness observed on the real broker handler.                                                    *)
 (*                                                                                                    *)
 (* rq = [ api      : name of the request type,                                                         *)
-(*        perms    : set of <<action, name>> the principal holds (name "*" = every name; ACLs are on,   *)
-(*                   default policy deny, the principal has exactly these allow rules),                 *)
+(*        perms    : the principal's ACL entry [allow, deny : sets of <<action, name>> (name "*" = every  *)
+(*                   name), dflt : BOOLEAN (default policy allow)]; ACLs are on; a request is permitted  *)
+(*                   iff no deny rule matches and (an allow rule matches or the default policy allows), *)
 (*        leasing  : BOOLEAN (partition leasing active),                                                *)
 (*        storeUp  : BOOLEAN (the metadata store reports etcd reachable; an input of the harness),      *)
 (*        leaseUp  : BOOLEAN (the lease manager's etcd client is alive; an input of the harness),       *)
@@ -27,7 +28,8 @@ AuthCodes == {29, 30, 31}       \* TOPIC_ / GROUP_ / CLUSTER_AUTHORIZATION_FAILE
 NotLeader == 6                  \* NOT_LEADER_OR_FOLLOWER
 Retriable19 == {6, 7}           \* NOT_LEADER_OR_FOLLOWER, REQUEST_TIMED_OUT
 
-Has(a, n) == <<a, n>> \in rq.perms \/ <<a, "*">> \in rq.perms
+Has(a, n) == /\ <<a, n>> \notin rq.perms.deny /\ <<a, "*">> \notin rq.perms.deny
+             /\ (<<a, n>> \in rq.perms.allow \/ <<a, "*">> \in rq.perms.allow \/ rq.perms.dflt)
 IsAdmin == Has("admin", "cluster")
 
 TopicApis == {"Produce", "Fetch", "ListOffsets", "OffsetForLeaderEpoch", "DescribeConfigs"}
